@@ -317,7 +317,9 @@ CLAIMED = {
         "STD_LOGIC_LUT code of the byte; composed with time_step_spec) and cycle_loop_vectors (a whole run of such cycles with their signed "
         "LEB128 time distances hands the store per cycle its time stamp and that step's trace), cycle_signals_records / "
         "cycle_loop_records (records of every value type - scalars, enumerations, integers as the 64-bit two's complement of the "
-        "signed LEB128 number, reals as 8 bytes - and a whole cycle section as the abstract run of its cycles); add_n_bit_change_entry, "
+        "signed LEB128 number, reals as 8 bytes - and a whole cycle section as the abstract run of its cycles), section_snapshot, "
+        "section_cycles, ghw_body_run (the signal part of a file as a whole - snapshot section, cycle sections, directory, tailer - is "
+        "its abstract run); add_n_bit_change_entry, "
         "check_min_state_spec, compress_template_spec (store side of the raw path); snapshot_vectors. The hierarchy reader "
         "(all of ghw/hierarchy.rs: string table, type table, well-known types, hierarchy section, signal tracker) is modelled "
         "(Model/GhwHier.v) and composed with the signal sections into the load of a whole file (Model/GhwFile.v); pinned about it: "
